@@ -10,7 +10,7 @@
    C by checks/c14.py (link-time ledger harness/allocwrap.c, every history x every failing
    allocation), which also compares the C's live-block counts with [owned]. *)
 From Coq Require Import ZArith List Bool Permutation.
-From A1 Require Import Rt.Types Rt.Heap Rt.HeapProofs Rt.Der Rt.DerProofs.
+From A1 Require Import Rt.Types Rt.Heap Rt.HeapProofs Rt.Der Rt.DerProofs Rt.HeapX Rt.HeapXProofs.
 Import ListNotations.
 
 (* every FREEMEM a free method performs hits a block the structure owns, every owned block is
@@ -66,3 +66,113 @@ Theorem C14_decoded_lifecycle : forall oer_decoder t v, is_slot t = false -> wt 
   owned t true [] (zero t) = [([], KStruct)].
 Proof. exact decoded_lifecycle. Qed.
 Print Assumptions C14_decoded_lifecycle.
+
+(* ================================================================================================
+   Round c14x (model coq/Rt/HeapX.v).  Leaf structures on the BYTE level - the fields of the C types,
+   bits_unused and the decoder context included - and the clean-up of an open type reader whose inner
+   decoder fails; extension holders = SEQUENCE with pointer-member additions. *)
+
+(* the span each free function passes to memset under ASFM_FREE_UNDERLYING_AND_RESET is the whole C type *)
+Theorem C14_leaf_wiped_is_sizeof : forall k, wiped k = sizeof k.
+Proof. exact wiped_is_sizeof. Qed.
+Print Assumptions C14_leaf_wiped_is_sizeof.
+
+(* ASN_STRUCT_RESET of a leaf structure (any kind, any contents) leaves the structure CALLOC gives: every byte zero *)
+Theorem C14_leaf_reset_is_calloc : forall k bs, length bs = sizeof k ->
+  snd (leaf_free k FreeUnderlyingAndReset bs) = calloc k.
+Proof. exact leaf_reset_is_calloc. Qed.
+Print Assumptions C14_leaf_reset_is_calloc.
+
+(* ... field by field, the extra fields (bits_unused, _asn_ctx) included *)
+Theorem C14_leaf_reset_clears_every_field : forall k f o l bs, length bs = sizeof k ->
+  field_at k f = Some (o, l) ->
+  slice o l (snd (leaf_free k FreeUnderlyingAndReset bs)) = repeat 0%Z l.
+Proof. exact leaf_reset_clears_every_field. Qed.
+Print Assumptions C14_leaf_reset_clears_every_field.
+
+Theorem C14_leaf_calloc_owns_nothing : forall k m,
+  fst (leaf_free k m (calloc k)) = if is_everything m then [KStruct] else [].
+Proof. exact leaf_calloc_owns_nothing. Qed.
+Print Assumptions C14_leaf_calloc_owns_nothing.
+
+Theorem C14_leaf_reset_then_free : forall k bs, length bs = sizeof k ->
+  fst (leaf_free k FreeEverything (snd (leaf_free k FreeUnderlyingAndReset bs))) = [KStruct] /\
+  leaf_free k FreeUnderlyingAndReset (snd (leaf_free k FreeUnderlyingAndReset bs)) = ([], calloc k).
+Proof. exact leaf_reset_then_free. Qed.
+Print Assumptions C14_leaf_reset_then_free.
+
+Theorem C14_leaf_free_events_nodup : forall k m bs, NoDup (fst (leaf_free k m bs)).
+Proof. exact leaf_free_events_nodup. Qed.
+Print Assumptions C14_leaf_free_events_nodup.
+
+(* "a later decode behaves exactly as into a fresh one": any decoder, as a function of (structure bytes, input) *)
+Theorem C14_decode_after_reset_is_fresh : forall (A : Type) k (dec : list Z -> A) bs, length bs = sizeof k ->
+  dec (snd (leaf_free k FreeUnderlyingAndReset bs)) = dec (calloc k).
+Proof. exact decode_after_reset_is_fresh. Qed.
+Print Assumptions C14_decode_after_reset_is_fresh.
+
+(* the decoder that does read the old state: BIT_STRING_decode_uper writes bits_unused only for lengths that are
+   not a multiple of 8; after RESET its result is the count the length dictates, without RESET it need not be *)
+Theorem C14_uper_bits_unused_after_reset : forall bs n, length bs = sizeof LBits ->
+  uper_bits_unused (snd (leaf_free LBits FreeUnderlyingAndReset bs)) n = spec_bits_unused n.
+Proof. exact uper_bits_unused_after_reset. Qed.
+Print Assumptions C14_uper_bits_unused_after_reset.
+
+Theorem C14_uper_bits_unused_stale_refuted : exists prior n, length prior = sizeof LBits /\
+  uper_bits_unused prior n <> spec_bits_unused n.
+Proof. exact uper_bits_unused_stale_refuted. Qed.
+Print Assumptions C14_uper_bits_unused_stale_refuted.
+
+(* a RESET that clears buf, size and the context but spares bits_unused is not the CALLOC structure *)
+Theorem C14_partial_reset_refuted : exists bs, length bs = sizeof LBits /\
+  clear_field LBits FCtxLeft (clear_field LBits FCtxPtr (clear_field LBits FCtxContext (clear_field LBits FCtxPhaseStep
+    (clear_field LBits FSize (clear_field LBits FBuf bs))))) <> calloc LBits.
+Proof. exact partial_reset_refuted. Qed.
+Print Assumptions C14_partial_reset_refuted.
+
+(* open type reader (oer_open_type_get): a failure INSIDE the container leaves the ledger as it was before the call *)
+Theorem C14_open_get_fail_balanced : forall t p slot s live,
+  NoDup (live ++ inner_owned t p slot s) ->
+  exists live', run_frees (live ++ inner_owned t p slot s) (fst (fst (open_get t p slot (InnerFail s)))) = Some live'
+                /\ Permutation live live'.
+Proof. exact open_get_fail_balanced. Qed.
+Print Assumptions C14_open_get_fail_balanced.
+
+Theorem C14_open_get_fail_slot : forall t p slot s, shape t s = true ->
+  snd (fst (open_get t p slot (InnerFail s))) = match slot with None => None | Some _ => Some (zero t) end.
+Proof. exact open_get_fail_slot. Qed.
+Print Assumptions C14_open_get_fail_slot.
+
+(* the dispose method must be chosen BEFORE the inner decoder runs: chosen afterwards, a failure in a pointer-member
+   addition leaves the member's own block live behind a NULL slot *)
+Theorem C14_open_get_late_dispose_leaks : forall t p s live,
+  is_slot t = false -> shape t s = true ->
+  NoDup (live ++ inner_owned t p None s) ->
+  exists live', run_frees (live ++ inner_owned t p None s) (open_get_late t p (InnerFail s)) = Some live'
+                /\ Permutation ((p, KStruct) :: live) live'.
+Proof. exact open_get_late_dispose_leaks. Qed.
+Print Assumptions C14_open_get_late_dispose_leaks.
+
+(* extension holders: the structure left by a failure inside the container of addition j *)
+Theorem C14_absent_from_wt : forall tg root adds vs j,
+  wt (ext_holder tg root adds) (VSeq vs) = true ->
+  wt (ext_holder tg root adds) (VSeq (absent_from (length root + j) vs)) = true.
+Proof. exact absent_from_wt. Qed.
+Print Assumptions C14_absent_from_wt.
+
+Theorem C14_fail_in_addition_slots : forall o root adds vs j, length vs = length (root ++ map TOpt adds) ->
+  of_members (of_val o) (root ++ map TOpt adds) (absent_from (length root + j) vs) =
+  firstn (length root + j) (of_members (of_val o) (root ++ map TOpt adds) vs)
+    ++ repeat (SPtr None) (length vs - (length root + j)).
+Proof. exact fail_in_addition_slots. Qed.
+Print Assumptions C14_fail_in_addition_slots.
+
+Theorem C14_fail_in_addition_lifecycle : forall oerd tg root adds vs j,
+  wt (ext_holder tg root adds) (VSeq vs) = true ->
+  let t := ext_holder tg root adds in
+  let s := fail_in_addition oerd (length root) j t (VSeq vs) in
+  shape t s = true /\
+  apply_free t FreeEverything (owned t true [] s) s = (Some [], None) /\
+  apply_free t FreeUnderlyingAndReset (owned t true [] s) s = (Some [([], KStruct)], Some (zero t)).
+Proof. exact fail_in_addition_lifecycle. Qed.
+Print Assumptions C14_fail_in_addition_lifecycle.
